@@ -139,6 +139,10 @@ func (g *vfGen) genC12() {
 			"<html><head><meta name=a><meta charset=" + l + "><meta charset=" + l2 + "></head>caf\xe9",
 			"<html><head><meta http-equiv=content-type content=\"text/html; charset=" + l + "\" charset=" + l2 + "></head>caf\xe9",
 			"<html><head><meta charset=\"\"><meta charset=" + l + "></head>caf\xe9",
+			"<html><head><meta name=a name=b charset=" + l + "></head>caf\xe9",
+			"<html><head><meta data-x=1 DATA-X=2 data-x=3 charset='" + l + "'></head>caf\xe9",
+			"<html><head><meta http-equiv=content-type http-equiv=x content=\"text/html; charset=" + l + "\"></head>caf\xe9",
+			"<html><head><meta name=a name=b content=\"text/html; charset=" + l + "\" http-equiv=content-type></head>caf\xe9",
 		}
 		for _, d := range docs {
 			g.emit(vfOp("cs", "html", []byte(d)))
